@@ -274,6 +274,7 @@ pub fn run(seed: u64, n: u64) -> (u64, u64) {
         }
         checks += check_snapshot::<std::sync::RwLock<()>>("rwlock", s, 0);
         runner::distinct_str(&serde_json::to_string(&v).unwrap());
+        runner::sample(json!({"value": serde_json::to_value(&v).unwrap(), "container_serialized_as": serde_json::to_string(&ArcSwapAny::<Arc<Doc>, DefaultStrategy>::new(Arc::new(v.clone()))).unwrap()}), 2);
     }
     let live = PROBES_LIVE.load(SeqCst);
     if live != 0 {
